@@ -191,6 +191,22 @@ theorem aabb_encapsulatePoint_mono (b : AABB ℝ) (p q : P3) (h : b.Contains q =
   obtain ⟨h1, h2, h3, h4, h5, h6⟩ := h
   refine ⟨?_, ?_, ?_, ?_, ?_, ?_⟩ <;> simp [*]
 
+/-- growing a box to encapsulate another box: everything the other box contained is contained -/
+theorem aabb_encapsulateBounds_contains (b c : AABB ℝ) (q : P3) (h : c.Contains q = true) :
+    (b.EncapsulateBounds c).Contains q = true := by
+  rw [aabb_contains_iff] at *
+  simp only [AABB.EncapsulateBounds, AABB.EncapsulatePoint, aabb_setMinMax_min, aabb_setMinMax_max, minVector, maxVector,
+    V3.New, V3.X, V3.Y, V3.Z]
+  simp only [AABB.Min, AABB.Max, V3.Sub, V3.Add] at h ⊢
+  obtain ⟨h1, h2, h3, h4, h5, h6⟩ := h
+  refine ⟨?_, ?_, ?_, ?_, ?_, ?_⟩ <;> simp only [min_le_iff, le_max_iff] <;> first | (left; right; linarith) | (right; linarith)
+
+/-- … and everything the box itself contained stays contained -/
+theorem aabb_encapsulateBounds_mono (b c : AABB ℝ) (q : P3) (h : b.Contains q = true) :
+    (b.EncapsulateBounds c).Contains q = true := by
+  unfold AABB.EncapsulateBounds
+  exact aabb_encapsulatePoint_mono _ _ _ (aabb_encapsulatePoint_mono _ _ _ h)
+
 theorem aabb_closestPoint_in_box (b : AABB ℝ) (v : P3)
     (hx : 0 ≤ b.extents.x) (hy : 0 ≤ b.extents.y) (hz : 0 ≤ b.extents.z) :
     b.Contains (b.ClosestPoint v) = true := by
